@@ -427,6 +427,7 @@ pub fn generate(rng: &mut Rng, focus: &str, thorough: bool) -> Case {
         2 => Some(rng.usize(3, 7)),
         _ => Some(1),
     };
+    let mut exact_landing = false;
     let kind = if set_speed {
         // non-negative speed trace with irregular time stamps: plateaus, stops, hard accelerations, dt jumps
         let n = rng.usize(10, if thorough { 400 } else { 150 });
@@ -470,13 +471,30 @@ pub fn generate(rng: &mut Rng, focus: &str, thorough: bool) -> Case {
         if trace.len() < 3 {
             trace = vec![(1.0, 0.5), (1.0, 1.0), (1.0, 0.5)];
         }
+        // one set-speed case in eight runs the front EXACTLY onto the end of the route (bit for bit: dyadic speeds
+        // and steps, lengths that are multiples of 0.5 m) and dwells there - the one front position no later
+        // segment can claim
+        let rem = path_len - train_len;
+        let mut v0 = v0;
+        if rng.chance(0.125) && rem >= 18.0 && rem <= 40_000.0 && (rem * 2.0).fract() == 0.0 && (train_len * 2.0).fract() == 0.0 {
+            let n = ((rem - 18.0) / 16.0).floor();
+            let k = ((rem - 18.0 - 16.0 * n) / 0.5).round() as usize;
+            v0 = 0.0;
+            trace = vec![(1.0, 2.0)];
+            trace.extend(std::iter::repeat((0.25, 2.0)).take(k));
+            trace.push((1.0, 16.0));
+            trace.extend(std::iter::repeat((1.0, 16.0)).take(n as usize));
+            trace.push((1.0, 0.0));
+            trace.extend(std::iter::repeat((1.0, 0.0)).take(3));
+            exact_landing = true;
+        }
         // C14: a trace containing a negative speed must be rejected (at that step at the latest)
-        if rng.chance(0.05) {
+        if !exact_landing && rng.chance(0.05) {
             let j = rng.usize(0, trace.len() - 1);
             trace[j].1 = -*rng.pick(&[0.01, 0.5, 3.0]);
         }
         // ... including its very first sample
-        let v0 = if rng.chance(0.015) { -*rng.pick(&[0.01, 0.5, 3.0]) } else { v0 };
+        let v0 = if !exact_landing && rng.chance(0.015) { -*rng.pick(&[0.01, 0.5, 3.0]) } else { v0 };
         Kind::SetSpeed { v0, trace, shipped_walk: rng.chance(0.4) }
     } else {
         let dt = *rng.pick(&[1.0, 1.0, 1.0, 0.5, 2.0]);
@@ -591,7 +609,11 @@ pub fn generate(rng: &mut Rng, focus: &str, thorough: bool) -> Case {
         c.init_speed_unset = *v0 > 0.0 && rng.chance(0.12);
     }
     // initial front position beyond the train length, inside the first link of the route
-    if rng.chance(0.2) {
+    if exact_landing {
+        // (time stamps are sums too: only an integral start keeps every step size, and so every position, exact)
+        c.init_time = c.init_time.floor();
+    }
+    if !exact_landing && rng.chance(0.2) {
         let tl = train_ref(&c.train, 0.0).length;
         let first_len = c.links[c.route[0] as usize].length.value;
         let room = (first_len - tl - 1.0).min(3000.0);
@@ -1430,6 +1452,40 @@ pub fn execute(case: &Case, ctx: &mut Ctx) {
                         };
                         if r2.is_ok() {
                             check_alignment(ctx, s2.state.i, &s2.history, Some((s2.fric_brake.state.i, s2.fric_brake.history.len(), s2.fric_brake.save_interval, s2.fric_brake.history.i.clone())), &s2.loco_con, executed + 1, want_len, case.save_interval, "shipped walk");
+                        }
+                        // the same run picked up part-way: some steps by hand,
+                        // then the shipped walk() finishes it. walk() saves the state it starts from once more - at
+                        // EVERY level, so histories stay aligned row by row - and the run ends where the uninterrupted one did.
+                        if let (Kind::LimitWalk { .. }, true) = (&case.kind, r2.is_ok()) {
+                            if let Ok(mut s3) = make_limit_sim(case) {
+                                s3.state.dt = dt * uc::S;
+                                if s3.extend_path(links, &lroute).is_ok() {
+                                    let k = 1 + (case.hash_seed % 40) as usize;
+                                    let stepped = (0..k).all(|_| s3.step().is_ok());
+                                    if stepped && executed > k && s3.walk().is_ok() {
+                                        ctx.hit("fault.resume.walk_after_manual_steps");
+                                        let executed3 = s3.state.i - 1;
+                                        let want3 = match case.save_interval {
+                                            None => 0,
+                                            // (steps by hand save no initial state; walk() saves the state it starts from, labelled with
+                                            // the index of the step about to be taken, which that step then saves again)
+                                            Some(iv) => (1..=executed3).filter(|i| i % iv == 0).count() + ((k + 1) % iv == 0) as usize,
+                                        };
+                                        check_alignment(ctx, s3.state.i, &s3.history, Some((s3.fric_brake.state.i, s3.fric_brake.history.len(), s3.fric_brake.save_interval, s3.fric_brake.history.i.clone())), &s3.loco_con, executed3 + 1, want3, case.save_interval, "shipped walk resumed after manual steps");
+                                        // C11 on every saved row: train and consist report the same cumulative wheel energy
+                                        let (te, ce) = (&s3.history.energy_whl_out, &s3.loco_con.history.energy_out);
+                                        for r in 0..te.len().min(ce.len()) {
+                                            if !close(te[r].value, ce[r].value, 1e-9, 1e-6, te[r].value.abs().max(1e3)) {
+                                                ctx.violate("C11", "levels", "energy_whl_out = consist.energy_out", format!("run resumed by walk() after {k} manual steps: saved row {r}: train {} vs consist {}", te[r].value, ce[r].value));
+                                                break;
+                                            }
+                                        }
+                                        if s3.state != s2.state {
+                                            ctx.violate("C03", "driver", "shipped walk = simulator-driven steps (bit-exact)", format!("walk() resumed after {k} manual steps ends at offset {} time {}, uninterrupted walk() at offset {} time {}", s3.state.offset.value, s3.state.time.value, s2.state.offset.value, s2.state.time.value));
+                                        }
+                                    }
+                                }
+                            }
                         }
                     }
                 }
